@@ -48,7 +48,9 @@ CLAIMED = {
              "request is unsupported (declarative spec). Tied to the code by executing every request class on "
              "abel.Transform and the transform functions and classifying the outcome (raise/forward/inverse) by an "
              "independent amplitude test; finite table enumerated completely + seeded interactions; every request "
-             "is issued twice to expose stale state after a failure.",
+             "is issued twice to expose stale state after a failure. Along histories: in the state machine of rbasex's transform "
+             "caches (C07Rbasex) a regularisation that cannot be honoured raises after every history of earlier requests and a "
+             "forward request is never answered with inverse matrices (invariant by induction; sessions on the real module vs the machine).",
         note="Trusted: Lean kernel + standard axioms; the abstraction of concrete requests into classes (harness "
              "model_line); forward/inverse classification by the Gaussian amplitude ratio; direct's C backend not "
              "built here (python backend only).",
@@ -94,12 +96,16 @@ CLAIMED = {
              "basis a fresh process would generate (up to the module's sound cropping) or an exception — by induction over "
              "all finite histories; the rule sets of dasch, daun, basex, linbasex, rbasex are proved lawful (and the "
              "pre-repair daun rule proved unlawful). Clean-up exactness is decided by the kernel over file-name tables "
-             "regenerated from /repo. Tie: seeded histories on the real get_bs_cached functions vs the machine after every "
-             "operation; oracles: returned basis vs fresh, transform-level histories and single-parameter changes vs a "
+             "regenerated from /repo. A second machine models rbasex's in-memory transform caches (_bs_prm, _valid_key, _trf, "
+             "_tri_full, _tri_prm, _tri; calls with any basis / mask of valid radii / direction / regularisation, cache_cleanup of "
+             "each kind): an invariant of the globals is preserved by every operation, so after any history a call returns matrices "
+             "made from exactly what it asked for. Tie: seeded histories on the real get_bs_cached functions vs the machines after every "
+             "operation (for rbasex: outcome and all six globals after every call); oracles: returned basis vs fresh, transform-level histories and single-parameter changes vs a "
              "pristine re-imported module in a forked child, cleanup exactness on a populated directory.",
         note="Trusted: Lean kernel + standard axioms; array contents are abstract descriptors and `sound` encodes crop facts "
-             "assumed of the numeric bases; second-level caches (transform matrices, rbasex _dst/_ibs, lazy inverse save) are "
-             "not in the machine (oracle only); gen_tables.py; ill-conditioned basex (sigma<1, reg=0) excluded from the lattice.",
+             "assumed of the numeric bases; rbasex's matrices are tags (what they were computed from), their numeric content is the "
+             "oracle's business; the other second-level caches (basex/daun transform matrices, rbasex _dst/_ibs, lazy inverse save) are "
+             "not in a machine (oracle only); gen_tables.py; ill-conditioned basex (sigma<1, reg=0) excluded from the lattice.",
         technique="Lean 4 proof (invariant by induction over operation histories; decide +kernel over generated tables) + "
                   "history correspondence model↔code",
         design="§3 C07"),
